@@ -22,7 +22,7 @@ def main(ctx):
     ev = ctx.ev
     wd = core.workdir()
     rng = random.Random(ctx.seed)
-    pairs = logixlib.TYPE_PAIRS[:3] if ctx.quick else logixlib.TYPE_PAIRS
+    pairs = logixlib.TYPE_PAIRS[:4] if ctx.quick else logixlib.TYPE_PAIRS
     maxm = 2 if ctx.quick else 3
     ev.rule = ("cases: (memory, bundle) -- every bundle of 1..%d members over a basis of ~19 member requests per "
                "configuration (TLC-emitted), from the zero memory and sampled written memories.  Non-trivial: the bundle "
